@@ -468,6 +468,44 @@ pub fn enumerate_promo(cb: &mut dyn FnMut(&Pos)) {
 /// F-HEAVY: material far outside normal play. Kings in opposite corners behind pawn shields; per side
 /// (q, r, b, n) counts up to the bounds, filled rank by rank into the side's own half by one of the
 /// filling orders. Both sides to move.
+/// F-ABSURD: one side has far more heavy men than any game can produce (20 .. 56 queens or rooks), the other only its
+/// shielded king; the poor side is to move. The FEN reader accepts such boards, so the incrementally kept state has
+/// to survive them (sums beyond 16 bits).
+pub fn enumerate_absurd(cb: &mut dyn FnMut(&Pos)) {
+    for kind in [Kind::Q, Kind::R] {
+        for n in [20usize, 26, 28, 30, 31, 32, 33, 34, 36, 40, 48, 56] {
+            let mut p = Pos::empty();
+            p.board[sq(0, 0) as usize] = Some((Color::W, Kind::K));
+            p.board[sq(0, 1) as usize] = Some((Color::W, Kind::P));
+            p.board[sq(1, 1) as usize] = Some((Color::W, Kind::P));
+            p.board[sq(1, 0) as usize] = Some((Color::W, Kind::N));
+            p.board[sq(7, 7) as usize] = Some((Color::B, Kind::K));
+            p.board[sq(7, 6) as usize] = Some((Color::B, Kind::P));
+            p.board[sq(6, 6) as usize] = Some((Color::B, Kind::P));
+            p.board[sq(6, 7) as usize] = Some((Color::B, Kind::N));
+            let mut left = n;
+            'fill: for r in 0..7 {
+                for f in 0..8 {
+                    let s = sq(f, r);
+                    // h6 / g6 / f6 stay free so that the poor side has pawn and knight moves
+                    if p.board[s as usize].is_none() && !(r == 5 && f >= 5) {
+                        if left == 0 {
+                            break 'fill;
+                        }
+                        p.board[s as usize] = Some((Color::W, kind));
+                        left -= 1;
+                    }
+                }
+            }
+            p.side = Color::B;
+            if p.is_legal_position() && !p.legal_moves().is_empty() {
+                cb(&p);
+                cb(&p.mirror());
+            }
+        }
+    }
+}
+
 pub fn enumerate_heavy(max_q: usize, max_r: usize, max_bn: usize, cb: &mut dyn FnMut(&Pos)) {
     let counts: Vec<(usize, usize, usize, usize)> = {
         let mut v = vec![];
